@@ -151,7 +151,8 @@ def build(e):
     if k == "rot" and e["m"] == "quarter":        # rotation by (pi/2) * parameter: Rotate.from_angles with an angle function
         import math
         ns = {}
-        exec("def ang(%s):\n    return %r * %s\n" % (e["an"], math.pi / 2 / SCALE[0], e["an"]), ns)
+        avs = [n_ for n_ in (e["an"], e.get("an2", "")) if n_]          # an angle function of one or of two variables
+        exec("def ang(%s):\n    return %r * (%s)\n" % (", ".join(avs), math.pi / 2 / SCALE[0], " + ".join(avs)), ns)
         return D.Rotate.from_angles(build(e["d"]), ns["ang"], rotate_around=mk_pos(e["p"]))
     if k == "rot" and e["m"] in ROT3:
         M, h = ROT3[e["m"]]
